@@ -1,6 +1,6 @@
 (* C07 — the sender transmits exactly the source file. Pinned statements only. *)
 From CFDP Require Import Base.Prelude Model.Timer Model.TxTypes Model.Recv Model.Send Model.TxInst
-  Proofs.SendP.
+  Proofs.SendP Proofs.FirstPassP.
 
 (* The invariant S7 (metadata size = file length; cursor inside the file; every queued NAK
    request is the 0-0 marker or a non-empty range inside the file no longer than a segment;
@@ -43,6 +43,32 @@ Proof.
   destruct (md_ck (s_meta s)); cbn in H; inversion H; subst; cbn; auto.
 Qed.
 
+(* First pass: over EVERY history (NAKs of any shape interleaved with the first pass, timeouts,
+   suspensions, prompts, ...), once the transaction has emitted an EOF PDU saying "no error",
+   every byte of the source file has been emitted in some file data PDU (which, by the invariant
+   above, carries exactly the file's bytes at its offset): the retransmissions interleaved with
+   the first pass do not disturb its cursor, and the EOF is prepared only when the cursor has
+   reached the end of the file. [srun ops s h] = (state after [ops], everything emitted before
+   its last step). *)
+Theorem C07_first_pass_covers : forall cksum resp_len req_len now cfg m file ops,
+  md_size m = N.of_nat (length file) -> 0 < cfg_seg cfg -> (md_src m <> [] \/ file = []) ->
+  let '(s, h) := srun cksum resp_len req_len ops (s_new now cfg m file) [] in
+  let log := s_out s ++ h in
+  forall p e, In (OPdu p) log -> o_payload p = PEof e -> eof_cond e = NoError ->
+  forall x, x < N.of_nat (length file) ->
+  exists q off d, In (OPdu q) log /\ o_payload q = PFileData off d /\ off <= x < off + N.of_nat (length d).
+Proof. exact first_pass_covers. Qed.
+
+(* non-vacuity: a history with a NAK interleaved in the first pass that does reach a "no error" EOF *)
+Example C07_first_pass_nonvacuous :
+  let cfg := mkConfig Acked false false 4 3 10000 3000 4000 [] 1 2 7 1 1 in
+  let md := mkMeta [115] [100] 6 CkModular false [] [] in
+  let ops := [(0, SSend); (0, SSend); (0, SPdu (PNakP (mkNak 0 6 [(0, 4)]))); (0, SSend); (0, SSend); (0, SSend)] in
+  let '(s, h) := srun inst_cksum inst_tlv_len inst_tlv_len ops (s_new 0 cfg md [1; 2; 3; 4; 5; 6]) [] in
+  existsb (fun o => match o with OPdu p => match o_payload p with PEof e => cond_eqb (eof_cond e) NoError | _ => false end
+                              | _ => false end) (s_out s ++ h) = true.
+Proof. vm_compute. reflexivity. Qed.
+
 Example C07_nonvacuous :
   let cfg := mkConfig Acked false false 4 3 10000 3000 4000 [] 1 2 7 1 1 in
   let md := mkMeta [115] [100] 6 CkModular false [] [] in
@@ -58,3 +84,4 @@ Print Assumptions C07_every_step.
 Print Assumptions C07_nak_split_wellformed.
 Print Assumptions C07_file_data_correct.
 Print Assumptions C07_eof_truthful.
+Print Assumptions C07_first_pass_covers.
